@@ -1,5 +1,6 @@
 import collections
 from abc import abstractmethod
+from copy import deepcopy
 from typing import Iterable, List, Optional, Set, Tuple
 
 from networkx.classes.reportviews import NodeView
@@ -285,6 +286,13 @@ class AugmentedGraph(ADMG, AugmentedNodeMixin):
             self.graph["S-nodes"].pop(n, None)
         return super().remove_nodes_from(nodes)
 
+    def copy(self):
+        G = super().copy()
+        # the registries are containers: the copy must own its own, not alias the original's
+        G.graph["F-nodes"] = deepcopy(self.graph["F-nodes"])
+        G.graph["S-nodes"] = deepcopy(self.graph["S-nodes"])
+        return G
+
 
 class AugmentedPAG(PAG, AugmentedNodeMixin):
     """An augmented PAG.
@@ -399,3 +407,10 @@ class AugmentedPAG(PAG, AugmentedNodeMixin):
             self.graph["F-nodes"].pop(n, None)
             self.graph["S-nodes"].pop(n, None)
         return super().remove_nodes_from(nodes)
+
+    def copy(self):
+        G = super().copy()
+        # the registries are containers: the copy must own its own, not alias the original's
+        G.graph["F-nodes"] = deepcopy(self.graph["F-nodes"])
+        G.graph["S-nodes"] = deepcopy(self.graph["S-nodes"])
+        return G
